@@ -4,6 +4,8 @@
 -/
 import QiVerif.Generated.Session
 import QiVerif.Model.Session
+import QiVerif.Generated.Queues
+import QiVerif.Model.Flood
 namespace QiVerif.Tie.C19
 open QiVerif.Session
 
@@ -14,5 +16,11 @@ theorem client_program : compile Gen.Session.clientTokens = prog := by decide
 
 /-- the endpoint's closer removes the entry under the write lock -/
 theorem closer_tokens : Gen.Session.closerTokens = ["Lock", "delete", "Unlock"] := by decide
+
+/-- the queue capacities and the non-blocking send of `dispatch` are those of Model/Flood.lean -/
+theorem queues_tied :
+    Gen.Queues.channels = ["handle: make(chan *net.Message, 10)", "NewMailBox: make(chan Mail, 10)"] ∧
+    Gen.Queues.dispatchSelect = ["h.consumer <- msg", "default"] ∧
+    Flood.consumerCap = 10 ∧ Flood.mailboxCap = 10 := ⟨rfl, rfl, rfl, rfl⟩
 
 end QiVerif.Tie.C19
